@@ -44,6 +44,11 @@ RULE = ('condition programs = forests of with-predicate / otherwise / |= nodes: 
         '(2e) caught errors: 150 (thorough 1500) random forests in which most conflicting |= (and a few good ones) '
         'are wrapped in try/except PyrtlError so that the elaboration of the block continues; specification: a '
         'rejected statement has no effect, the design is that of the program without it (values, pred_sets seen); '
+        '(2f) other legal kinds of objects: targets that are Outputs or user SUBCLASSES of Register / WireVector / '
+        'Output, MemBlocks built with max_write_ports None / 1 / 2 / 3, max_read_ports, asynchronous, predicates that '
+        'are a memory read used directly (`with mem[a]:`), a comparison, a match_bitpattern result, a '
+        'WrappedWireVector, a bit slice or a 1-bit Const -- a third of every stream is re-dressed this way and 240 '
+        '(thorough 2400) random forests have the aspects forced; any exception other than PyrtlError is a violation; '
         '(2b) memory write chains: 2-4 (thorough 5) conditional writes to ONE MemBlock with address wires drawn '
         'from a pool of 3 SHARED address Inputs -- every address-wire pattern up to renaming (XY, XYY, XYX, XXYY, '
         'XYZX ...) x 4 tree shapes (flat chain, chain ending in otherwise, nested otherwise, split), plus 60 '
@@ -70,7 +75,10 @@ TRUSTED = ['py/checks/C07.py coerce_ok / leaf_own_value: the coercion rule of |=
            'Front/CondSpec.v: the tree interpreter (branch_active / next_taken / flags_tree), '
            'spec_value / spec_mem, and the syntactic exclusivity criterion (slits / syn_excl / spec_accepts)',
            'py/checks/C07.py py_flags / py_lits: the same specification written independently in Python']
-ASSUMPTIONS = ['predicates are wires of known bitwidth (a `with` on a wire wider than 1 bit raises: elab_w); right-hand sides, addresses, data, enables and declared '
+ASSUMPTIONS = ['the model has three target kinds (wire / register / memory) and abstract predicate ids: the Python class of a target '
+               '(Output, user subclasses), a memory\'s port options and the kind of object a predicate is (Input, memory read, '
+               'comparison, match_bitpattern, wrapper, slice, Const) are abstracted; covered by the correspondence only',
+               'predicates are wires of known bitwidth (a `with` on a wire wider than 1 bit raises: elab_w); right-hand sides, addresses, data, enables and declared '
                'defaults are opaque wires (leaves) whose per-cycle values are the environment',
                'a right-hand side is first converted to the target width by |= (as_wires/truncate/zero-extend); '
                'the model sees the converted value',
@@ -431,22 +439,102 @@ def add_try_markers(rng, case):
     return case
 
 
+PRED_KINDS = ['memread', 'cmp', 'match', 'wrapped', 'bit', 'const1', 'const0']
+
+
+def pkinds_of(case):
+    return case.get('pkinds') or ['in'] * case['npred']
+
+
+def pred_inputs(case, rho):
+    """values of the Inputs that make predicate i evaluate to rho[i]"""
+    ins = {}
+    for i, k in enumerate(pkinds_of(case)):
+        b = int(bool(rho[i]))
+        if k == 'in':
+            ins['p%d' % i] = rho[i]
+        elif k in ('memread', 'wrapped'):
+            ins['q%d' % i] = b
+        elif k == 'cmp':
+            ins['q%d' % i] = 1 if b else 2
+        elif k in ('match', 'bit'):
+            ins['q%d' % i] = 2 + (i & 1) if b else (i & 1)
+    return ins
+
+
+def decorate(rng, case, force=()):
+    """the same condition program over other legal kinds of objects: targets that are Outputs or user
+    subclasses of Register / WireVector / Output, memories built with other port options, predicates that
+    are memory reads used directly, comparisons, match_bitpattern results, WrappedWireVectors, bit slices,
+    1-bit Consts.  None of this changes what the property says about the program."""
+    if 'targets' in force or rng.random() < 0.5:
+        case['tclass'] = {}
+        for l in case['targets']:
+            if l[0] == 'w':
+                case['tclass'][l] = rng.choice(['plain', 'sub', 'output', 'suboutput'])
+            elif l[0] == 'r':
+                case['tclass'][l] = rng.choice(['plain', 'sub', 'sub'])
+    if 'mems' in force or rng.random() < 0.5:
+        case['memopts'] = {l: rng.choice([', max_write_ports=None', ', max_write_ports=None', ', max_write_ports=1',
+                                          ', max_write_ports=2', ', max_read_ports=None, max_write_ports=3',
+                                          ', asynchronous=True'])
+                           for l in case['targets'] if l[0] == 'm'}
+    if 'preds' in force or rng.random() < 0.5:
+        pw = pw_of(case)
+        ks = []
+        for i in range(case['npred']):
+            if pw[i] > 1 or rng.random() < 0.3:
+                ks.append('in')
+            else:
+                ks.append(rng.choice(PRED_KINDS[:5] * 3 + PRED_KINDS[5:]))
+        case['pkinds'] = ks
+        if any(k in ('const0', 'const1') for k in ks):
+            case['structural'] = False
+    return case
+
+
 def emit_source(case):
     L = ['import pyrtl', 'pyrtl.reset_working_block()']
+    tcl = case.get('tclass', {})
+    if any(v.startswith('sub') for v in tcl.values()):
+        L += ['class SubRegister(pyrtl.Register):', '    pass', 'class SubWire(pyrtl.WireVector):', '    pass',
+              'class SubOutput(pyrtl.Output):', '    pass']
+    pk = pkinds_of(case)
+    if 'memread' in pk:
+        L.append("fm = pyrtl.MemBlock(bitwidth=1, addrwidth=1, name='fm', asynchronous=True)   # 1-bit flag table")
     for i in range(case['npred']):
-        L.append("p%d = pyrtl.Input(%d, 'p%d')" % (i, pw_of(case)[i], i))
+        k = pk[i]
+        if k == 'in':
+            L.append("p%d = pyrtl.Input(%d, 'p%d')" % (i, pw_of(case)[i], i))
+        elif k == 'memread':
+            L.append("q%d = pyrtl.Input(1, 'q%d'); p%d = fm[q%d]   # a lazy memory read used directly as predicate" % (i, i, i, i))
+        elif k == 'cmp':
+            L.append("q%d = pyrtl.Input(2, 'q%d'); p%d = (q%d == 1)" % (i, i, i, i))
+        elif k == 'match':
+            L.append("q%d = pyrtl.Input(2, 'q%d'); p%d = pyrtl.match_bitpattern(q%d, '1?')" % (i, i, i, i))
+        elif k == 'wrapped':
+            L.append("q%d = pyrtl.Input(1, 'q%d'); p%d = pyrtl.wire.WrappedWireVector(q%d)" % (i, i, i, i))
+        elif k == 'bit':
+            L.append("q%d = pyrtl.Input(2, 'q%d'); p%d = q%d[1]" % (i, i, i, i))
+        else:
+            L.append("p%d = pyrtl.Const(%d, bitwidth=1)" % (i, 1 if k == 'const1' else 0))
     for i, lf in enumerate(case['leaves']):
         if lf['kind'] == 'in':
             L.append("x%d = pyrtl.Input(%d, 'x%d')" % (i, lf['width'], i))
     for l in case['targets']:
         n = wname(l)
+        tc = tcl.get(l, 'plain')
         if l[0] == 'w':
-            L.append("%s = pyrtl.WireVector(%d, '%s')" % (n, case['W'], n))
-            L.append("o%s = pyrtl.Output(%d, 'o%s'); o%s <<= %s" % (n, case['W'], n, n, n))
+            if tc in ('output', 'suboutput'):      # an Output (or user subclass of it) assigned conditionally
+                L.append("%s = %s(%d, '%s')" % (n, 'pyrtl.Output' if tc == 'output' else 'SubOutput', case['W'], n))
+            else:
+                L.append("%s = %s(%d, '%s')" % (n, 'SubWire' if tc == 'sub' else 'pyrtl.WireVector', case['W'], n))
+                L.append("o%s = pyrtl.Output(%d, 'o%s'); o%s <<= %s" % (n, case['W'], n, n, n))
         elif l[0] == 'r':
-            L.append("%s = pyrtl.Register(%d, '%s')" % (n, case['W'], n))
+            L.append("%s = %s(%d, '%s')" % (n, 'SubRegister' if tc == 'sub' else 'pyrtl.Register', case['W'], n))
         else:
-            L.append("%s = pyrtl.MemBlock(bitwidth=%d, addrwidth=%d, name='%s')" % (n, case['W'], case['A'], n))
+            L.append("%s = pyrtl.MemBlock(bitwidth=%d, addrwidth=%d, name='%s'%s)" % (
+                n, case['W'], case['A'], n, case.get('memopts', {}).get(l, '')))
     if case.get('shared_defaults'):
         L.append('D = {%s}' % ', '.join('%s: %s' % (wname(l), leaf_src(case, lf))
                                         for l, lf in case['shared_defaults'] if l in case['targets']))
@@ -938,8 +1026,24 @@ def build_real(case, src, log=None):
 
     def spy(lhs, pred_set):
         if log is not None:
-            log.append((getattr(lhs, 'name', '?'), sorted((p.name, bool(b)) for p, b in pred_set)))
+            log.append((getattr(lhs, 'name', '?'), [(p, bool(b)) for p, b in pred_set]))
         return orig(lhs, pred_set)
+
+    def resolve():
+        if log is None:
+            return
+        ids = {}
+        for i in range(case['npred']):
+            o = ns.get('p%d' % i)
+            if o is None:
+                continue
+            ids[id(o)] = 'p%d' % i
+            for attr in ('matched', 'wire'):      # match_bitpattern results / wrappers enter their inner wire
+                inner = getattr(o, attr, None) if not isinstance(o, pyrtl.Input) else None
+                if inner is not None:
+                    ids[id(inner)] = 'p%d' % i
+        for k, (n, ps) in enumerate(log):
+            log[k] = (n, sorted((ids.get(id(p), '?'), b) for p, b in ps))
     cond._check_and_add_pred_set = spy
     try:
         exec(compile(src, '<C07 program>', 'exec'), ns)
@@ -949,6 +1053,7 @@ def build_real(case, src, log=None):
         return False, type(e).__name__, traceback.format_exc()[-800:]
     finally:
         cond._check_and_add_pred_set = orig
+        resolve()
     return True, ns, ''
 
 
@@ -1010,6 +1115,9 @@ def make_stimulus(rng, case, rounds=2, cap=None):
         rho = [rng.randint(0, 1) for _ in range(case['npred'])]
         for p, b in zip(ups, v):
             rho[p] = b
+        for i, k in enumerate(pkinds_of(case)):
+            if k in ('const0', 'const1'):
+                rho[i] = 1 if k == 'const1' else 0      # a constant predicate has one valuation
         raw = []
         W = case['W']
         # distinct data values where the width allows, so that a wrong branch is visible
@@ -1059,10 +1167,12 @@ def simulate(case, ns, steps, init_regs, init_mems):
     block = pyrtl.working_block()
     regmap = {ns[wname(l)]: v for l, v in init_regs.items()}
     memmap = {ns[wname(l)]: dict(c) for l, c in init_mems.items()}
+    if 'fm' in ns:
+        memmap[ns['fm']] = {0: 0, 1: 1}
     sim = pyrtl.Simulation(register_value_map=regmap, memory_value_map=memmap, block=block)
     rows = []
     for rho, raw in steps:
-        ins = {'p%d' % i: rho[i] for i in range(case['npred'])}
+        ins = pred_inputs(case, rho)
         for i, lf in enumerate(case['leaves']):
             if lf['kind'] == 'in':
                 ins['x%d' % i] = raw[i]
@@ -1153,7 +1263,21 @@ def extract_exprs(case, ns):
         memo[w] = r
         return r
 
+    predwire = {}
+    for i, k in enumerate(pkinds_of(case)):
+        o = ns.get('p%d' % i)
+        if k == 'memread':
+            o = o.wire
+        elif k == 'wrapped':
+            o = o.wire
+        elif k == 'match':
+            o = o.matched
+        if isinstance(o, pyrtl.WireVector):
+            predwire[o] = i
+
     def ex1(w):
+        if w in predwire:
+            return [0, predwire[w]]
         if isinstance(w, pyrtl.Input):
             if w.name.startswith('p'):
                 return [0, int(w.name[1:])]
@@ -1236,7 +1360,7 @@ def impl_vs_spec(case, seed):
                 if a != b:
                     return {'kind': 'value', 'leak': leak, 'source': src, 'cycle': k, 'target': wname(l),
                             'expected': sr[l], 'got': ir[l], 'predicates': steps[k][0], 'leaves': steps[k][1],
-                            'inputs': [{'rho': x[0], 'x': x[1]} for x in steps[:k + 1]],
+                            'inputs': [{'rho': x[0], 'x': x[1], 'pins': pred_inputs(case, x[0])} for x in steps[:k + 1]],
                             'init_regs': {wname(x): v for x, v in init_regs.items()},
                             'init_mems': {wname(x): v for x, v in init_mems.items()}}
         return None
@@ -1427,7 +1551,7 @@ def process_case(ctx, case, rng, jobs, seed_key=None):
                                 k, wname(l), sr[l], ir[l]),
                                 dict(rep, cycle=k, target=wname(l), expected=sr[l], got=ir[l],
                                      predicates=steps[k][0], leaves=steps[k][1],
-                                     inputs=[{'rho': s[0], 'x': s[1]} for s in steps[:k + 1]],
+                                     inputs=[{'rho': s[0], 'x': s[1], 'pins': pred_inputs(case, s[0])} for s in steps[:k + 1]],
                                      init_regs={wname(x): v for x, v in init_regs.items()},
                                      init_mems={wname(x): v for x, v in init_mems.items()}))
                             break
@@ -1663,6 +1787,26 @@ def canon_pattern(pat):
 
 
 def gen_cases(ctx):
+    """all streams; a third of the programs of every stream are re-dressed with other legal kinds of objects
+    (decorate), plus a directed stream where every aspect is forced"""
+    drng = ctx.sub_rng('decorate')
+    for c in gen_cases0(ctx):
+        if max(pw_of(c)) == 1 and drng.random() < 0.33 and not c.get('shared_defaults'):
+            decorate(drng, c)
+            c['origin'] += '+objects'
+        yield c
+    quick = ctx.tier == 'quick'
+    for i in range(240 if quick else 2400):
+        rng = ctx.sub_rng('objects', i)
+        c = random_case(rng, ctx.tier, norepair=(i % 3 == 0))
+        if max(pw_of(c)) > 1:
+            continue
+        decorate(rng, c, force=('targets', 'mems', 'preds')[: 1 + i % 3] if i % 4 else ('targets', 'mems', 'preds'))
+        c['origin'] = 'random-object-kinds'
+        yield c
+
+
+def gen_cases0(ctx):
     """yield (key, case)"""
     quick = ctx.tier == 'quick'
     # (1) bounded-exhaustive
@@ -1835,11 +1979,13 @@ def replay(ctx, data):
                 outcome, 'accept' if expect_ok else 'reject'), rep)
     elif 'inputs' in rep and outcome == 'accepted':
         sim = pyrtl.Simulation(register_value_map={ns[k]: v for k, v in rep.get('init_regs', {}).items()},
-                               memory_value_map={ns[k]: {int(a): v for a, v in c.items()}
-                                                 for k, c in rep.get('init_mems', {}).items()})
+                               memory_value_map=dict({ns[k]: {int(a): v for a, v in c.items()}
+                                                      for k, c in rep.get('init_mems', {}).items()},
+                                                     **({ns['fm']: {0: 0, 1: 1}} if 'fm' in ns else {})))
         names = {w.name for w in pyrtl.working_block().wirevector_subset(pyrtl.Input)}
         for st in rep['inputs']:
             ins = {'p%d' % i: b for i, b in enumerate(st['rho']) if 'p%d' % i in names}
+            ins.update({k: v for k, v in st.get('pins', {}).items() if k in names})
             for i, v in enumerate(st['x']):
                 if 'x%d' % i in names:
                     ins['x%d' % i] = v
